@@ -19,7 +19,7 @@ def run(tier):
     rows = [x for x in table[0]["rows"] if x["rel"] != "none"]
     inputs = []
     iid = 0
-    small = [(100, True), (128, True), (131, True), (1031, False), (8967 + 5, False)]
+    small = [(100, True), (128, True), (131, True), (1031, False), (4096, False), (8967 + 5, False)]
     for n, allrot in small:
         # drifting / degenerate inputs matter: a walk that peaks on its very last step, a final run longer than the cut-off, ...
         for mode in ["uni", "bias", "periodic", "heavy", "heavy", "step", "const1", "runsbias", "onehot"]:
@@ -33,16 +33,19 @@ def run(tier):
     inputs.sort(key=lambda i: -i["n"])
     tmp = vlib.scratch("sym")
     from concurrent.futures import ThreadPoolExecutor
-    def one(inp):
-        jp = os.path.join(tmp, "j%d.json" % inp["id"]); op = os.path.join(tmp, "o%d.ndjson" % inp["id"])
+    # several inputs per driver process, longest first: a result must not depend on the lengths handled before
+    ng = min(vlib.NCPU, max(1, len(inputs) // 3))
+    groups = [inputs[i::ng] for i in range(ng)]
+    def one(grp):
+        jp = os.path.join(tmp, "j%d.json" % grp[0]["id"]); op = os.path.join(tmp, "o%d.ndjson" % grp[0]["id"])
         with open(jp, "w") as fh:
-            json.dump({"rows": rows, "inputs": [inp]}, fh)
+            json.dump({"rows": rows, "inputs": grp}, fh)
         p = vlib.run_bin(hz, ["symmetry", jp, op], timeout=6000)
         if p.returncode != 0:
             raise vlib.InfraError("hz symmetry failed: " + (p.stderr or "")[-800:])
         return vlib.read_ndjson(op)
     with ThreadPoolExecutor(max_workers=vlib.NCPU) as ex:
-        events = [e for part in ex.map(one, inputs) for e in part]
+        events = [e for part in ex.map(one, groups) for e in part]
     acc, rej, gen = vlib.validate_trace("TraceSymmetry", events, timeout=3000, max_rej=4)
     run.states += acc; run.transitions += gen; run.traces += acc; run.evaluations += len(events)
     combos = set()
@@ -56,9 +59,11 @@ def run(tier):
     run.extra["table_entries_claimed"] = len(claimed)
     run.sample({"sym_event": events[len(events) // 2]})
     byid = {i["id"]: i for i in inputs}
+    prefix = {g[k]["id"]: g[:k] for g in groups for k in range(len(g))}
     for e in rej:
         run.violation({"kind": "symmetry", "test": e["t"], "tau": e["tau"], "param": e["param"], "taup": e["taup"], "n": e["n"], "mode": e["mode"]},
-                      {"cmd": "symmetry", "rows": [x for x in rows if x["t"] == e["t"] and x["tau"] == e["tau"]], "input": byid[e["id"]], "event": e})
+                      {"cmd": "symmetry", "rows": [x for x in rows if x["t"] == e["t"] and x["tau"] == e["tau"]], "input": byid[e["id"]],
+                       "before_in_same_process": prefix.get(e["id"], []), "all_rows": rows, "event": e})
     run.rule = ("model: every relation of the table checked on the integer summaries of all sequences of 8..10 (12) bits (all rotation amounts, a block rotation, a complemented tail); "
                 "code: pairs (x, tau x) for every claimed table entry x documented parameters, every rotation amount at n = 100/128/131, rotation amounts {1, 7, m-1, n/2, n-1, random} "
                 "and random block permutations / tail contents up to 10^6 bits; relation checked to 1e-9")
@@ -73,8 +78,10 @@ def replay(path):
     tmp = vlib.scratch("rs")
     jp = os.path.join(tmp, "j.json"); op = os.path.join(tmp, "o.ndjson")
     with open(jp, "w") as fh:
-        json.dump({"rows": rp["rows"], "inputs": [rp["input"]]}, fh)
-    vlib.run_bin(hz, ["symmetry", jp, op])
+        # the inputs the process had handled before (with the full table), then the input itself
+        json.dump({"rows": rp.get("all_rows") or rp["rows"], "inputs": rp.get("before_in_same_process", []) + [rp["input"]]}, fh)
+    vlib.run_bin(hz, ["symmetry", jp, op], timeout=6000)
+    ev0 = rp["event"]
     for e in vlib.read_ndjson(op):
-        if e["param"] == rp["event"]["param"] and e["taup"] == rp["event"]["taup"]:
+        if e["id"] == ev0["id"] and e["t"] == ev0["t"] and e["tau"] == ev0["tau"] and e["param"] == ev0["param"] and e["taup"] == ev0["taup"] and bool(e.get("bytes")) == bool(ev0.get("bytes")):
             print(json.dumps(e))
